@@ -410,7 +410,7 @@ def process_operations (cfg : Config) (s : State) (block : SignedBlock) : SM Sta
 
 /-! ## Sync aggregate [New in Altair] -/
 
-def process_sync_aggregate (cfg : Config) (s : State) (sync_aggregate : SyncAggregate) : SM State := do
+def process_sync_aggregate_m (cfg : Config) (s : State) (sync_aggregate : SyncAggregate) : SM State := do
   let some committee := s.current_sync_committee | invalid "sync_aggregate.no_committee"
   let sync_committee_bits := sync_aggregate.sync_committee_bits.take cfg.SYNC_COMMITTEE_SIZE
   require (sync_committee_bits.length = cfg.SYNC_COMMITTEE_SIZE) "sync_aggregate.bits_length"
@@ -439,6 +439,15 @@ def process_sync_aggregate (cfg : Config) (s : State) (sync_aggregate : SyncAggr
     else
       s ← decrease_balance s participant_index participant_reward
   pure s
+
+/-- `process_sync_aggregate` [New in Altair]: the monadic version above, compared on every evaluation with its pure core
+`process_sync_aggregate_pure` (which the refinement theorem `syncAggregate_eq` is about), instantiated with the
+specification's total active balance and proposer of the state -/
+def process_sync_aggregate (cfg : Config) (s : State) (sync_aggregate : SyncAggregate) : SM State :=
+  let r := process_sync_aggregate_m cfg s sync_aggregate
+  match get_total_active_balance cfg s, get_beacon_proposer_index cfg s with
+  | .ok T, .ok p => crossCheck "process_sync_aggregate" (process_sync_aggregate_pure cfg s sync_aggregate T p) r
+  | _, _ => r
 
 /-! ## Execution payload and withdrawals -/
 
